@@ -303,7 +303,7 @@ class MergeAssociatesTransformer(NestedTransformer):
         body = self.visit(o.body, **kwargs)
 
         if not o.parent or not isinstance(o.parent, ir.Associate):
-            return o._rebuild(body=body, rescope_symbols=True)
+            return o._rebuild(body=body, parent=o.parent, rescope_symbols=True)
 
         # Find all associate mapping that can be moved up
         to_move = tuple(
